@@ -258,7 +258,7 @@ def h_A_surface(ctx, kind, stoich, op, ts, units=None, bulk=False):
     else:
         pre = c.kb('J/K') / c.h('J s')
     if n_surf == 0:
-        ctx.eq('A without surface reactants = prefactor (no site-density scaling)', A, pre)
+        ctx.eq('A without surface reactants = prefactor (no site-density scaling)', A, pre, rel=1e-12)
     else:
         eff = _eff(op, sig, stoich) * conv
         ctx.eq('A = prefactor * site_density^(1 - n_surf)', A * eff**(n_surf - 1), pre, rel=1e-12)
